@@ -1227,11 +1227,57 @@ theorem cellsContents_spec (g : Grid) (hi : Inv g) (cells : List Coord) (hnd : c
     · rintro ⟨c, hc, ha⟩; exact ⟨c, hc, (hi.pos_content a c).mpr ha⟩
     · rintro ⟨c, hc, ha⟩; exact ⟨c, hc, (hi.pos_content a c).mp ha⟩
 
-theorem agentsList_spec (g : Grid) (hi : Inv g) :
-    g.agentsList.Nodup ∧ ∀ a, a ∈ g.agentsList ↔ g.pos a ≠ none := by
-  unfold agentsList
-  constructor
-  · unfold List.Nodup
+theorem mem_foldl_dedup (l acc : List Aid) (y : Aid) :
+    y ∈ l.foldl (fun acc x => if x ∈ acc then acc else acc ++ [x]) acc ↔ y ∈ acc ∨ y ∈ l := by
+  induction l generalizing acc with
+  | nil => simp
+  | cons x xs ih =>
+    simp only [List.foldl_cons, ih, List.mem_cons]
+    split
+    · rename_i hx
+      constructor
+      · rintro (h | h); exact Or.inl h; exact Or.inr (Or.inr h)
+      · rintro (h | h | h); exact Or.inl h; exact Or.inl (h ▸ hx); exact Or.inr h
+    · simp only [List.mem_append, List.mem_singleton]
+      constructor
+      · rintro ((h | h) | h); exact Or.inl h; exact Or.inr (Or.inl h); exact Or.inr (Or.inr h)
+      · rintro (h | h | h); exact Or.inl (Or.inl h); exact Or.inl (Or.inr h); exact Or.inr h
+
+theorem nodup_foldl_dedup (l acc : List Aid) (h : acc.Nodup) :
+    (l.foldl (fun acc x => if x ∈ acc then acc else acc ++ [x]) acc).Nodup := by
+  induction l generalizing acc with
+  | nil => exact h
+  | cons x xs ih =>
+    simp only [List.foldl_cons]
+    apply ih
+    split
+    · exact h
+    · rename_i hx
+      exact List.nodup_append.mpr ⟨h, by simp, by simp; exact fun y hy e => hx (e ▸ hy)⟩
+
+theorem mem_dedup (l : List Aid) (y : Aid) : y ∈ dedup l ↔ y ∈ l := by
+  unfold dedup; rw [mem_foldl_dedup]; simp
+
+theorem nodup_dedup (l : List Aid) : (dedup l).Nodup := nodup_foldl_dedup l [] (by simp)
+
+theorem foldl_dedup_of_nodup (l acc : List Aid) (h : (acc ++ l).Nodup) :
+    l.foldl (fun acc x => if x ∈ acc then acc else acc ++ [x]) acc = acc ++ l := by
+  induction l generalizing acc with
+  | nil => simp
+  | cons x xs ih =>
+    simp only [List.foldl_cons]
+    have hx : x ∉ acc := by
+      intro hx
+      have := List.nodup_append.mp h
+      exact this.2.2 x hx x (by simp) rfl
+    rw [if_neg hx, ih (acc ++ [x]) (by simpa using h)]
+    simp
+
+/-- within the property's quantifier nothing is dropped: the `AgentSet` is the flattened contents -/
+theorem agentsList_eq (g : Grid) (hi : Inv g) : g.agentsList = g.allCells.flatMap g.content := by
+  unfold agentsList dedup
+  have hnd : (g.allCells.flatMap g.content).Nodup := by
+    unfold List.Nodup
     rw [List.pairwise_flatMap]
     refine ⟨fun c _ => hi.nodup c, ?_⟩
     refine List.Pairwise.imp ?_ (sorted_allCells g).nodup
@@ -1241,17 +1287,24 @@ theorem agentsList_spec (g : Grid) (hi : Inv g) :
     have h2 := (hi.pos_content x c').mpr hy
     rw [h1] at h2
     exact hne (Option.some.inj h2)
-  · intro a
-    simp only [List.mem_flatMap, mem_allCells]
-    constructor
-    · rintro ⟨c, _, ha⟩ h
-      have := (hi.pos_content a c).mpr ha
-      rw [h] at this; cases this
-    · intro h
-      cases hp : g.pos a with
-      | none => exact absurd hp h
-      | some c =>
-        have ha := (hi.pos_content a c).mp hp
-        exact ⟨c, hi.in_grid c (List.ne_nil_of_mem ha), ha⟩
+  have := foldl_dedup_of_nodup (g.allCells.flatMap g.content) [] (by simpa using hnd)
+  simpa using this
+
+theorem agentsList_spec (g : Grid) (hi : Inv g) :
+    g.agentsList.Nodup ∧ ∀ a, a ∈ g.agentsList ↔ g.pos a ≠ none := by
+  refine ⟨nodup_dedup _, ?_⟩
+  intro a
+  unfold agentsList
+  simp only [mem_dedup, List.mem_flatMap, mem_allCells]
+  constructor
+  · rintro ⟨c, _, ha⟩ h
+    have := (hi.pos_content a c).mpr ha
+    rw [h] at this; cases this
+  · intro h
+    cases hp : g.pos a with
+    | none => exact absurd hp h
+    | some c =>
+      have ha := (hi.pos_content a c).mp hp
+      exact ⟨c, hi.in_grid c (List.ne_nil_of_mem ha), ha⟩
 
 end Mesa.Legacy
